@@ -234,6 +234,9 @@ pub fn run_c17(cfg: &Cfg) -> i32 {
     );
     rep.assumptions.push("faults are keyed by query text, so the same query fails the same way on the shared and on the fresh connection".into());
     let n = cfg.count(150, 20_000);
+    // panics of the evaluator are caught and compared like any other outcome: keep their
+    // backtraces (hundreds per saturation sequence) out of the log
+    std::panic::set_hook(Box::new(|_| {}));
     for i in 0..n {
         let idx = cfg.case_index(i);
         let mut r = cfg.prng("C17", idx);
@@ -246,9 +249,41 @@ pub fn run_c17(cfg: &Cfg) -> i32 {
             o.unknown_names = r.chance(1, 4);
             exprs.push(expr::generate_expr_with(r.next_u64(), &database, &o));
         }
+        // saturation mode (one case in six, and the first few of every run): the SAME failing or
+        // panicking expression m times in a row - m around powers of two - and then a good one
+        // that shares a filter-set with it: budgets, counters and tables that only a successful
+        // evaluation resets must not carry over
+        let mut database = database;
+        let saturation = idx < 6 || r.chance(1, 6);
+        if saturation {
+            database.filter_sets.insert("FLTR-VH-GOOD".into(), "{192.0.2.0/24, 198.51.100.0/24}".into());
+            database.filter_sets.insert("FLTR-VH-REGEX".into(), "<^AS65000$>".into());
+            database.filter_sets.insert("FLTR-VH-ERR".into(), "AS-VH-DOES-NOT-EXIST".into());
+            for c in 1..=16 {
+                database.filter_sets.insert(format!("FLTR-VH-C{c}"), if c < 16 { format!("FLTR-VH-C{}", c + 1) } else { "<^AS65000$>".into() });
+            }
+            let fs = |n: &str| Expr::FilterSet(n.to_string());
+            let bad = match if idx < 6 { idx as usize } else { r.below(6) } {
+                0 => fs("FLTR-VH-REGEX"),
+                1 => fs("FLTR-VH-C1"),
+                2 => fs("FLTR-VH-ERR"),
+                3 => Expr::And(Box::new(fs("FLTR-VH-GOOD")), Box::new(Expr::AsSet("AS-VH-DOES-NOT-EXIST".into()))),
+                4 => Expr::And(Box::new(fs("FLTR-VH-GOOD")), Box::new(Expr::PeerAs)),
+                _ => Expr::Or(Box::new(fs("FLTR-VH-C13")), Box::new(fs("FLTR-VH-GOOD"))),
+            };
+            let m = if idx < 6 { [64usize, 4, 5, 33, 65, 16][idx as usize] } else { *r.pick(&[1usize, 2, 3, 4, 5, 7, 8, 9, 15, 16, 17, 31, 32, 33, 63, 64, 65, 127, 128, 129, 255, 256, 257]) };
+            exprs.clear();
+            for _ in 0..m {
+                exprs.push(bad.clone());
+            }
+            exprs.push(fs("FLTR-VH-GOOD"));
+            exprs.push(Expr::Or(Box::new(fs("FLTR-VH-GOOD")), Box::new(fs("FLTR-VH-GOOD"))));
+            rep.count("saturation_sequences");
+            rep.count_n("saturation_repetitions", m as u64);
+        }
         // re-evaluate some expressions later in the sequence: a result (or a failure) of an
         // earlier evaluation must not be remembered in a way that changes a later one
-        for _ in 0..r.range(0, 3) {
+        for _ in 0..(if saturation { 0 } else { r.range(0, 3) }) {
             let e = exprs[r.below(exprs.len())].clone();
             exprs.push(e);
         }
